@@ -875,6 +875,13 @@ def handleLine (line : String) : Option (List String × Nat × Nat) :=
   | id :: "bigseq" :: rest => handleBigSeq id rest
   | id :: "alias" :: rest => handleAlias id rest
   | id :: "parse" :: rest => handleParse id rest
+  | id :: "f64" :: rest =>
+    (match rest.getLast? with
+     | some "same" => some ([], 0, 0)
+     | some "noref" => some ([], 0, 0)
+     | some "PANIC" | some "HANG" => some (propfail id "C04" "Float64 panic or hang")
+     | some w => some (propfail id "C17" ("Float64 is not the float64 nearest to the decimal value: " ++ w))
+     | none => none)
   | id :: "conc" :: rest =>
     (match rest.getLast? with
      | some "same" => some ([], 0, 0)
